@@ -1,5 +1,6 @@
 """C01 — one point set per polyhedron, whatever its history."""
 from . import poly_common as pc
+from . import c01_status
 LEVEL = "proof"
 
 
@@ -11,6 +12,7 @@ def run(ctx):
         broken += ctx.leanchecker(["PPLV.Props.C01"])
     pc.run_poly(ctx, ops="c01", n_hist=1500 if quick else 40000, length=12 if quick else 30,
                 maxdim=3 if quick else 4)
+    broken += c01_status.run(ctx)          # stage 2: the lazy status protocol (proof + status correspondence)
     for b in broken:
         # a proof obligation broke but the correspondence above found no failing input
         ctx.violation("proof obligation broken: " + b, {"obligation": b}, found_input=False)
